@@ -28,7 +28,9 @@ unedited torrent.
 """
 
 import os
+import shutil
 import logging
+import tempfile
 
 import pyben
 
@@ -118,6 +120,14 @@ def edit_torrent(metafile: str, args: dict) -> dict:
 
     meta["info"] = dict(sorted(info.items()))
     meta = dict(sorted(meta.items()))
-    os.remove(metafile)
-    pyben.dump(meta, metafile)
+    parent = os.path.dirname(os.path.abspath(metafile))
+    descriptor, temp = tempfile.mkstemp(dir=parent, suffix=".tmp")
+    try:
+        with os.fdopen(descriptor, "wb") as tempfd:
+            pyben.dump(meta, tempfd)
+        shutil.copymode(metafile, temp)
+        os.replace(temp, metafile)
+    except BaseException:
+        os.remove(temp)
+        raise
     return meta
